@@ -101,7 +101,13 @@ func c09Case(c *mon.Ctx, aText, bText string, prof gen.Profile) {
 		tText := ref.ToJSON(target)
 		var P jd.JsonNode
 		var nerr error
-		if pan := mon.Safe(func() { P, nerr = ReadJ(tText).Patch(mk()) }); pan != "" || nerr != nil || P == nil {
+		nd := mk()
+		if t%2 == 1 {
+			// the very diff value that was rendered, rendered once more and then applied natively
+			_, _ = nd.RenderPatch()
+			c.Feature("native_diff_reused_after_rendering")
+		}
+		if pan := mon.Safe(func() { P, nerr = ReadJ(tText).Patch(nd) }); pan != "" || nerr != nil || P == nil {
 			c.Feature("target_native_rejects")
 			continue
 		}
